@@ -125,7 +125,12 @@ def lex_programs():
     ]
     order = [["s", n] for n in ("B", "S1", "X", "Y1", "Z", "W")]
     vars_ = [{"n": "B", "kind": "sym", "cands": [ktree.NOVAL, "3", "10"]}, {"n": "S1", "kind": "sym", "cands": [ktree.NOVAL, "zz"]}, {"n": "X", "kind": "sym", "cands": [ktree.NOVAL, "n"]}]
-    return [{"prog": ents, "ord": order, "vars": vars_, "family": "F-lex"}]
+    out = [{"prog": ents, "ord": order, "vars": vars_, "family": "F-lex"}]
+    # string literals with two blanks in a row / with the word "if" inside (one program each: two open findings)
+    for name, lit in (("two-blanks-in-literal", "a  b"), ("if-in-literal", "what if not")):
+        e2 = [mk("G", "bool", prompt=Y, defaults=[{"v": Y, "c": Y}]), mk("SL", "string", prompt=Y, defaults=[{"v": C(lit), "c": S("G")}, {"v": C("z"), "c": Y}])]
+        out.append({"prog": e2, "ord": [["s", "G"], ["s", "SL"]], "vars": [{"n": "G", "kind": "sym", "cands": [ktree.NOVAL, "n"]}], "family": "F-lex", "lex": name})
+    return out
 
 
 def main(run):
@@ -175,7 +180,7 @@ def main(run):
                 run.report(
                     "parsers disagree on accepting a program: parser 1: %s; parser 2: %s" % (e1 or "accepted", e2 or "accepted"),
                     {"kconfig": text, "parser1": e1 or "accepted", "parser2": e2 or "accepted"},
-                    {"P-BothAcceptOrReject"} | ({"crash"} if crash else set()),
+                    {"P-BothAcceptOrReject"} | ({"crash"} if crash else set()) | ({it["lex"]} if it.get("lex") else set()),
                 )
             else:
                 run.note("both parsers reject a generated program: %s" % (e1 or "")[:120])
@@ -185,10 +190,11 @@ def main(run):
             if (norm_defs(b1[key]) != norm_defs(b2[key])) if key == "defs" else (b1[key] != b2[key]):
                 same = False
                 diff = next(((x, y) for x, y in zip(b1[key], b2[key]) if x != y), (len(b1[key]), len(b2[key])))
-                run.report("%s: the two parsers differ on the canonical text: %s" % (tag, str(diff)[:500]), {"kconfig": text, "clause": tag, "first_difference": diff}, {tag})
+                run.report("%s: the two parsers differ on the canonical text: %s" % (tag, str(diff)[:500]), {"kconfig": text, "clause": tag, "first_difference": diff}, {tag} | ({it["lex"]} if it.get("lex") else set()))
                 break
         # lexical variants: each parser must read every variant as the canonical program
-        for st in styles:
+        # (programs that exist for one literal only are compared in their canonical form and no further)
+        for st in ([] if it.get("lex") else styles):
             vtext, vextra = ktree.render_styled(prog, st, random.Random("%d/v%d%s" % (run.seed, pi, st)))
             nvar += 1
             if ktree.STYLES[st].get("odd_text"):
